@@ -218,6 +218,13 @@ Error BaseRAPass::run_on_function(Arena& arena, FuncNode* func, [[maybe_unused]]
   // Must be called regardless of the allocation status.
   on_done();
 
+  // RAInst and RABlock data attached to nodes lives in `arena`, which is reset below - no node may keep a pointer to
+  // it. A successful allocation clears the data of rewritten instructions only, a failed one clears nothing, which
+  // made a later `finalize()` follow dangling pointers.
+  for (BaseNode* node = func; node != _stop; node = node->next()) {
+    node->reset_pass_data();
+  }
+
   // Reset possible connections introduced by the register allocator.
   RAPass_reset_virt_reg_data(this);
 
